@@ -33,7 +33,11 @@ if __name__ == '__main__':
     except LostAnchor as e:
         print('LOST ANCHOR:', e)
         sys.exit(2)
-    res = run_verus(out)
+    try:
+        rl = json.load(open(os.path.join(ROOT, 'contracts', 'registry.json')))['units'].get(unit, {}).get('rlimit')
+    except Exception:
+        rl = None
+    res = run_verus(out, rlimit=rl)
     for l in sp.lost:
         print('LOST LABEL [%s]: %s' % (l['label'], l['reason'][:160]))
     print('verified=%d failed=%d wall=%.1fs smt=%sms repo_lines=%d' % (res['verified'], res['failed'], res['wall_s'], res['smt_ms'], sp.repo_lines))
